@@ -88,7 +88,7 @@ TIERS = {
             ('lazy-n3-d3-race', dict(pars='ParsLazy3', depth=3, pft='PftF3', maxpf=2, **RACE),
              None),
         ],
-        'design': dict(pars='ParsLazy3', depth=4, pft='PftQ3', **SMALL),
+        'design': [dict(pars='ParsLazy3', depth=4, pft='PftQ3', **SMALL)],
         'race': [dict(n=3, w=2, b=4, shape='tile'), dict(n=3, w=2, b=2, shape='dup')],
         'random': {'count': 1500, 'steps': (10, 30)},
     },
@@ -102,16 +102,19 @@ TIERS = {
                                      up='{1}', freeze='{0, 1}', maxinst=3, pf='Pf123',
                                      maxup=1, maxpf=1), 100000),
             ('eager-n3-d3', dict(pars='ParsEager3', depth=3, **MID), None),
-            ('lazy-n3-d4-race', dict(pars='ParsLazy3m', depth=4, pft='PftF3', maxpf=2, **RACE),
+            ('lazy-n3-d4-race', dict(pars='ParsLazy3', depth=4, pft='PftF3', maxpf=1, **RACE),
              150000),
-            ('lazy-n2-d4-race', dict(pars='ParsLazy2', depth=4, idx='IdxF2', keys='{"b"}',
-                                     starts='{}', sub='SubZ', up='{1}', freeze='{0, 1}',
-                                     maxinst=2, pf='Pf2', maxup=1, pft='PftF2', maxpf=3),
-             100000),
+            ('lazy-n3-d4-race2', dict(pars='ParsLazy3', depth=4, pft='PftQ3', maxpf=2, **RACE),
+             150000),
+            ('lazy-n2-d4-race', dict(pars='ParsLazy2', depth=4, idx='IdxS2', keys='{"b"}',
+                                     starts='{}', sub='SubZ', up='{1}', freeze='{0}',
+                                     maxinst=2, pf='Pf2', maxup=1, pft='PftF2', maxpf=2),
+             150000),
             ('eager-n3-d3-race', dict(pars='ParsEager3r', depth=3, pft='PftQ3', maxpf=2,
                                       **RACE), None),
         ],
-        'design': dict(pars='ParsLazy3', depth=5, pft='PftQ3', **CORE),
+        'design': [dict(pars='ParsLazy3', depth=5, **CORE),
+                   dict(pars='ParsLazy3', depth=4, pft='PftQ3', **SMALL)],
         'race': [dict(n=3, w=2, b=4, shape='tile'), dict(n=3, w=2, b=2, shape='dup'),
                  dict(n=3, w=3, b=6, shape='tile'), dict(n=3, w=3, b=3, shape='dup'),
                  dict(n=2, w=2, b=3, shape='tile')],
@@ -544,21 +547,26 @@ def race_design(plans, workers=None):
     return stats, info, errors
 
 
-def design_check(kw, workers=None):
-    """TLC on the design itself: the repaired model satisfies every invariant;
-    every open defect of this family is re-discovered on the original model.
-    Returns (tlc stats, info, machinery errors)."""
+def design_check(kws, workers=None):
+    """TLC on the design itself: the repaired model satisfies every invariant (every
+    config of `kws`; the pool steps "pft" / "pfd" are the sequentialised pool);
+    every open defect of this family that changes the prediction is re-discovered
+    on the original model (first config).  Returns (tlc stats, info, machinery errors)."""
     open_ids = common.unfixed_ids()
-    text = cfg(emit=False, design=True, **kw)
     info, errors = {}, []
-    d = tlc.prepare([u for u in open_ids if u != 'S6'])
-    r = tlc.run('Cache.tla', 'MC_design.cfg', workdir=d, cfg_text=text, timeout=3000,
-                workers=workers)
-    stats = r['stats']
-    info['design_repaired'] = {'rc': r['rc'], 'tlc': r['stats']}
-    if r['rc'] != 0 or r['errors']:
-        errors.append('Cache.tla design check (repaired model) failed: rc=%s %s'
-                      % (r['rc'], ' | '.join(r['errors'][:6])))
+    stats = {'generated': 0, 'distinct': 0}
+    for k, kw in enumerate(kws):
+        d = tlc.prepare([u for u in open_ids if u != 'S6'])
+        r = tlc.run('Cache.tla', 'MC_design.cfg', workdir=d, timeout=3000, workers=workers,
+                    cfg_text=cfg(emit=False, design=True, **kw))
+        for x in stats:
+            stats[x] += r['stats'][x]
+        info['design_repaired' + (f'_{k + 1}' if k else '')] = {
+            'rc': r['rc'], 'tlc': r['stats'], 'depth': kw['depth'], 'pool_steps': kw.get('pft', 'none')}
+        if r['rc'] != 0 or r['errors']:
+            errors.append('Cache.tla design check (repaired model) failed: rc=%s %s'
+                          % (r['rc'], ' | '.join(r['errors'][:6])))
+    text = cfg(emit=False, design=True, **kws[0])
     # sensitivity (vacuity guard), whatever the state of the tree: with the
     # ORIGINAL behaviour of S6 switched on TLC must refute the design
     d = tlc.prepare(sorted(set(open_ids) | {'S6'}))
@@ -647,6 +655,7 @@ def run(prop, tier):
                   'was computed twice inside the step while the cache was storing',
           'executed': {}, 'raced': {}, 'histories_with_pool_step': 0, 'histories_raced': 0,
           'decisions': 0, 'switches': 0, 'max_threads': 0}
+    gave_up = set()     # the scheduler aborted: not an observation of the library
     for rec, pl in zip(records, pools):
         if not pl:
             continue
@@ -657,6 +666,7 @@ def run(prop, tier):
             s = rec['hist'][i['t']]
             text = short(rec['par'], rec['hist'])
             if i.get('aborted') is not None:
+                gave_up.add(rec['id'])
                 res.machinery_errors.append(f"controlled scheduler gave up ({i['aborted']}) in "
                                             f"step {i['t'] + 1} of {text}")
                 continue
@@ -676,10 +686,12 @@ def run(prop, tier):
     res.coverage['traces_validated_against_impl'] = len(records)
     res.coverage['evaluations'] = len(records)
     by_clause, known, samples, nontrivial = {}, {}, [], 0
-    viol_counts, known_clauses = {}, {}
+    viol_counts, known_clauses, known_best = {}, {}, {}
     for rec, j in zip(records, jobs):
         v = verdicts[rec['id']]
         status, clause = v[prop]
+        if rec['id'] in gave_up:
+            status, clause = 'machinery', 'scheduler-gave-up'
         by_clause[f'{status}:{clause}'] = by_clause.get(f'{status}:{clause}', 0) + 1
         text = short(rec['par'], rec['hist'])
         if status == 'ok':
@@ -687,6 +699,8 @@ def run(prop, tier):
             if len(samples) < 4 and rec['id'] % 101 == 0:
                 samples.append({'history': text, 'verdict': clause,
                                 'returned': [s['vs'] or s['exc'] for s in rec['obs']['steps']]})
+        if status == 'machinery':
+            continue
         kf = match_finding(rec['par'], rec['hist'], v, rec['obs']) if status == 'viol' else None
         # (a recorded defect the model deliberately does not predict - S21, the
         # model is the sequentialised pool - is reported as the finding, not as drift)
@@ -699,10 +713,14 @@ def run(prop, tier):
         if kf is not None:
             known[kf['id']] = known.get(kf['id'], 0) + 1
             known_clauses[f"{kf['id']}:{clause}"] = known_clauses.get(f"{kf['id']}:{clause}", 0) + 1
-            if known[kf['id']] == 1:
-                res.known_finding(kf['id'], f"{kf['what']} [{clause}] e.g. {text} -> "
-                                  f"{[s['vs'] or s['exc'] for s in rec['obs']['steps']]} "
-                                  f"upstream calls {rec['obs']['steps'][-1]['calls']}")
+            # the line shows the same (shortest, random-upstream first) example in every run
+            rank = (len(rec['hist']), rec['par']['ups'] != 'rand',
+                    json.dumps([rec['par'], rec['hist']], sort_keys=True))
+            if kf['id'] not in known_best or rank < known_best[kf['id']][0]:
+                known_best[kf['id']] = (
+                    rank, f"{kf['what']} [{clause}] e.g. {text} -> "
+                          f"{[s['vs'] or s['exc'] for s in rec['obs']['steps']]} "
+                          f"upstream calls {rec['obs']['steps'][-1]['calls']}")
             continue
         # every violating history is counted; at most 5 replay files per clause
         # and 25 in total are written
@@ -715,6 +733,8 @@ def run(prop, tier):
                        'model_verdict': v['mv'], 'conformance': v['conf'],
                        'relaxed_verdict_S21': v['s21'], 'seed': common.seed(),
                        'how': 'real observation judged by TLC (CacheTrace.tla, V_C10)'})
+    for fid in sorted(known_best):
+        res.known_finding(fid, known_best[fid][1])
     res.coverage['violating_histories'] = viol_counts
     if not samples and records:
         samples.append({'history': short(records[0]['par'], records[0]['hist']),
